@@ -135,6 +135,8 @@ def run_equiv(args):
     from .. import props  # noqa: F401
     from ..runner import run_rules, RULES as _R
     name = "equiv/" + os.path.basename(patch)
+    if os.path.basename(patch) == "patch.diff":
+        name = "controls/" + os.path.basename(os.path.dirname(patch))
     d = tempfile.mkdtemp(prefix="sa_eq_")
     try:
         shutil.copytree(os.path.join(root, "lbfgsb"), os.path.join(d, "lbfgsb"))
@@ -176,6 +178,27 @@ def seeded_patches(pid: Optional[str] = None) -> List[tuple]:
                 continue     # the mechanism it needed was removed by a later fix: see meta.json
             if prop and (pid is None or prop == pid):
                 out.append((pf, prop))
+    return out
+
+
+def control_patches(pid: Optional[str] = None) -> List[str]:
+    """behaviour-CHANGING commits under which the property still holds (produced by independent sub-agents, confirmed by hand,
+    kept under /verif/controls/<id>/): those whose recorded verdict is `silent` must stay unreported by the rules of their
+    own property"""
+    import json
+    out = []
+    cd = os.path.join(os.path.dirname(SEEDED_DIR), "controls")
+    if not os.path.isdir(cd):
+        return out
+    for d in sorted(os.listdir(cd)):
+        pf, mf = os.path.join(cd, d, "patch.diff"), os.path.join(cd, d, "meta.json")
+        if os.path.isfile(pf) and os.path.isfile(mf):
+            try:
+                meta = json.load(open(mf))
+            except Exception:
+                continue
+            if meta.get("verdict") == "silent" and meta.get("property") and (pid is None or meta["property"] == pid):
+                out.append(pf)
     return out
 
 
@@ -235,7 +258,7 @@ def run_for_property(pid: str, spec: dict, root: str, tier: str) -> dict:
     base = _baseline(root, spec["rules"])
     jobs = [(root, {**m, "rules": [r for r in m["rules"] if r in spec["rules"]]}, "M", base) for m in ms] + \
            [(root, {**q, "rules": [r for r in q["rules"] if r in spec["rules"]]}, "Q", base) for q in qs]
-    eq = [(root, p, spec["rules"], base) for p in equiv_patches()] if tier == "thorough" else []
+    eq = [(root, p, spec["rules"], base) for p in equiv_patches() + control_patches(pid)] if tier == "thorough" else []
     sd = [(root, p, spec["rules"], base) for p, _ in seeded_patches(pid)] if tier == "thorough" else []
     if tier == "thorough" and len(jobs) + len(eq) + len(sd) > 8:
         with ProcessPoolExecutor(max_workers=min(16, len(jobs) + len(eq) + len(sd))) as ex:
@@ -269,6 +292,12 @@ def run_all(root: str, rules: List[str], jobs: int, verbose: bool) -> int:
     work = [(root, m, "M", base) for m in ms] + [(root, q, "Q", base) for q in qs]
     eq = [(root, p, rules or sorted(_R), base) for p in equiv_patches()]
     from .. import props as _props
+    if not rules:
+        import json as _json
+        for p in control_patches():
+            prop = _json.load(open(os.path.join(os.path.dirname(p), "meta.json")))["property"]
+            if prop in _props.PROPS:
+                eq.append((root, p, _props.PROPS[prop]["rules"], base))
     sd = [] if rules else [(root, p, _props.PROPS[prop]["rules"], base) for p, prop in seeded_patches() if prop in _props.PROPS]
     if jobs > 1 and len(work) > 4:
         with ProcessPoolExecutor(max_workers=jobs) as ex:
